@@ -23,7 +23,7 @@ import numpy as np
 from hypothesis import strategies as st
 
 from vlib import dsops, env, oracles
-from vlib.core import Stage
+from vlib.core import Stage, hang_is_violation
 
 ID = "C01"
 LEVEL = "exploration"
@@ -417,5 +417,8 @@ STAGES = [
               "thorough": 20000
           },
           fork=True,
-          rust=True)
+          rust=True,
+          timeout=150,
+          timeout_violation=hang_is_violation(
+              "value", "writing and reading back a small dataset"))
 ]
